@@ -33,7 +33,7 @@ pub struct C13;
 /// Context literals of scope variant `v`: one to three stacked contexts; upper ones shadow lower ones.
 fn scope_texts(v: u64, layers: u64) -> Vec<String> {
   let base = format!(
-    "{{a: {a}, b: {b}, Order Size: {os}, s: \"{s}\", Customer: \"{c}\", flag: {f}, nothing: null, xs: [{x1}, {x2}, {x3}, {x4}], names: [\"ann\", \"bob{v}\", \"cy\"], people: [{{name: \"ann\", age: {a}}}, {{name: \"bob{v}\", age: {b}}}, {{name: \"cy\", age: 41}}], p: {{name: \"p{v}\", age: {os}, address: {{city: \"c{v}\"}}}}, inc: function(x) x + {a}}}",
+    "{{a: {a}, b: {b}, Order Size: {os}, s: \"{s}\", Customer: \"{c}\", flag: {f}, nothing: null, xs: [{x1}, {x2}, {x3}, {x4}], names: [\"ann\", \"bob{v}\", \"cy\"], people: [{{name: \"ann\", age: {a}}}, {{name: \"bob{v}\", age: {b}}}, {{name: \"cy\", age: 41}}], orders: [{{item: 1, qty: 10}}, {{item: {a}, qty: 20}}, {{item: 3, qty: {b}}}], p: {{name: \"p{v}\", age: {os}, address: {{city: \"c{v}\"}}}}, inc: function(x) x + {a}}}",
     a = 2 + v,
     b = 7 * (v + 1),
     os = 10 + 3 * v,
@@ -94,7 +94,7 @@ impl<'a> Gen<'a> {
         _ => "count(xs)".into(),
       };
     }
-    match self.rng.index(20) {
+    match self.rng.index(21) {
       16 => format!("(function() {})()", self.num(d - 1)),
       17 => format!("{{pi: function() {}, r: pi() + {}}}.r", self.num(d - 1), self.num(d - 1)),
       18 => format!("sum(for i in {} return (function() i + a)())", self.list(d - 1)),
@@ -114,7 +114,8 @@ impl<'a> Gen<'a> {
       12 => format!("count({})", self.list(d - 1)),
       13 => format!("max({})", self.list(d - 1)),
       14 => format!("string length({})", self.string(d - 1)),
-      _ => format!("people[{}].age", self.index()),
+      15 => format!("people[{}].age", self.index()),
+      _ => format!("count(orders[item >= {}])", self.num(d - 1)),
     }
   }
   fn index(&mut self) -> String {
@@ -180,7 +181,7 @@ impl<'a> Gen<'a> {
         _ => "[a, b, Order Size]".into(),
       };
     }
-    match self.rng.index(14) {
+    match self.rng.index(17) {
       0 => format!("[{}, {}, {}]", self.num(d - 1), self.num(d - 1), self.num(d - 1)),
       1 => format!("(for x in {} return x + {})", self.list(d - 1), self.num(d - 1)),
       2 => format!("(for x in 1..{}, y in {} return x * y)", 1 + self.rng.below(4), self.list(d - 1)),
@@ -194,7 +195,10 @@ impl<'a> Gen<'a> {
       10 => format!("flatten([{}, {}])", self.list(d - 1), self.list(d - 1)),
       11 => format!("(for x in {}, y in (for z in 1..2 return z + x) return y * {})", self.list(d - 1), self.num(d - 1)),
       12 => format!("{}[item > a and item < {}]", self.list(d - 1), self.num(d - 1)),
-      _ => format!("(for x in {} return {{k: x, m: k + 1}}.m)", self.list(d - 1)),
+      13 => format!("(for x in {} return {{k: x, m: k + 1}}.m)", self.list(d - 1)),
+      14 => format!("orders[item > {}].qty", self.num(d - 1)),
+      15 => format!("orders[qty > {}].item", self.num(d - 1)),
+      _ => format!("(for o in orders[item < {}] return o.item + o.qty)", self.num(d - 1)),
     }
   }
   fn string(&mut self, d: u32) -> String {
@@ -243,7 +247,7 @@ impl<'a> Gen<'a> {
 }
 
 fn pushes_context(text: &str) -> bool {
-  text.contains("for ") || text.contains("some ") || text.contains("every ") || text.contains("function") || text.contains('{') || text.contains("[item") || text.contains("[age") || text.contains("[name") || text.contains("inc(")
+  text.contains("for ") || text.contains("some ") || text.contains("every ") || text.contains("function") || text.contains('{') || text.contains("[item") || text.contains("[age") || text.contains("[name") || text.contains("[qty") || text.contains("inc(")
 }
 
 // ------------------------------------------------------------------------------------------------
@@ -350,7 +354,7 @@ fn expr_class(text: &str) -> &'static str {
     "function-definition"
   } else if t.starts_with('{') {
     "context-literal"
-  } else if text.contains("[item") || text.contains("[age") || text.contains("[name") {
+  } else if text.contains("[item") || text.contains("[age") || text.contains("[name") || text.contains("[qty") {
     "filter"
   } else if text.contains("inc(") || text.contains("function(") {
     "invocation"
